@@ -97,13 +97,20 @@ pub fn run_c14(a: &Args) {
     let total: u64 = if a.thorough { 1_500_000 } else { 30_000 };
     let tmpdir = format!("/verif/.work/c14-{}-{}", std::process::id(), a.shard);
     let _ = std::fs::create_dir_all(&tmpdir);
+    let mut written: std::collections::BTreeMap<String, Vec<u8>> = std::collections::BTreeMap::new();
     for idx in 0..total {
         if !ctx::mine(idx) {
             continue;
         }
         let mut rng = Rng::new(mix(a.seed ^ 0xC14, idx));
-        let specs = kinds[(idx % 8) as usize];
         let bulk = idx % 600 == 596; // a multiple of 4: bulk documents also go through the file variant
+        // bulk graphs are multigraphs (40 nodes cannot hold 1000 single edges), kind rotating
+        let specs = if bulk {
+            let k = kinds[((idx / 600) % 8) as usize];
+            Specs::kind(k.directed, true, k.self_loops)
+        } else {
+            kinds[(idx % 8) as usize]
+        };
         let n = if bulk { 40 } else { rng.range(0, 7) };
         let mut used = std::collections::HashSet::new();
         let names: Vec<String> = (0..n).map(|_| unicode_name(&mut rng, &mut used)).collect();
@@ -115,7 +122,7 @@ pub fn run_c14(a: &Args) {
         let mut edge_desc = vec![];
         if n > 0 {
             let m_edges = if bulk {
-                ctx::count("reach:more-than-1000-edges");
+                ctx::count("reach:more-than-1000-edge-requests");
                 if rng.chance(1, 3) { rng.range(3000, 4000) } else { rng.range(1001, 1300) }
             } else {
                 rng.range(0, 9)
@@ -138,6 +145,9 @@ pub fn run_c14(a: &Args) {
                 g.add_edge(e).expect("permissive specs");
                 edge_desc.push(json!([u, v, wjson(w), format!("{:016x}", w.to_bits())]));
             }
+        }
+        if g.get_all_edges().len() > 1000 {
+            ctx::count("reach:more-than-1000-edges");
         }
         let desc = json!({"kind": specs.kind_label(), "names": names, "edges": edge_desc});
         ctx::case_desc(desc.clone());
@@ -192,7 +202,9 @@ pub fn run_c14(a: &Args) {
         if idx % 4 == 0 {
             // two alternating paths that are never removed between cases: a shorter document is
             // regularly saved over a longer one
-            let path = format!("{}/g{}.graphml", tmpdir, (idx / 4) % 2);
+            // five targets in one directory that share their stem (and one of which is called
+            // like a scratch file): saving one must leave the others alone
+            let path = format!("{}/{}", tmpdir, ["doc.graphml", "doc.xml", "doc.tmp", "doc", "doc.graphml.bak"][((idx / 4) % 5) as usize]);
             if std::fs::metadata(&path).map(|m| m.len() as usize > text.len()).unwrap_or(false) {
                 ctx::count("reach:shorter-document-saved-over-longer-file");
             }
@@ -214,6 +226,16 @@ pub fn run_c14(a: &Args) {
                     let bytes = std::fs::read(&path).unwrap_or_default();
                     if bytes != text.as_bytes() {
                         fail("write_graphml_file", "file-differs-from-string-variant", json!({"file_len": bytes.len(), "string_len": text.len()}));
+                    }
+                    written.insert(path.clone(), text.as_bytes().to_vec());
+                    for (other, want) in &written {
+                        if *other != path && std::fs::read(other).ok().as_deref() != Some(&want[..]) {
+                            fail("write_graphml_file", "saving-one-file-changed-or-removed-another", json!({"saved": path, "damaged": other}));
+                            break;
+                        }
+                    }
+                    if written.len() >= 2 {
+                        ctx::count("reach:several-files-with-one-stem");
                     }
                     match guard("read_graphml_file", || graphml::read_graphml_file(&path, specs.to_real())) {
                         Ok(Ok(b2)) => {
@@ -526,11 +548,11 @@ fn gen_document(rng: &mut Rng, hostile: bool) -> String {
                 w
             };
             let other = *rng.pick(&["x", "7", "2.5", "1e3", "-4"]);
-            match rng.below(if hostile { 12 } else { 5 }) {
+            match rng.below(if hostile { 16 } else { 5 }) {
                 // a self-closing element (it has no content to interpret) ahead of the edge's own,
                 // well-placed weight data
-                10 => t.push_str(&format!("<edge source=\"{}\" target=\"{}\"><node id=\"{}\"/><data key=\"{}\">{}</data></edge>", esc(u), esc(v), esc(u), wkey, w)),
-                11 => t.push_str(&format!("<edge source=\"{}\" target=\"{}\"><key id=\"zz\" for=\"node\" attr.name=\"colour\"/><desc/><data key=\"{}\">{}</data></edge>", esc(u), esc(v), wkey, w)),
+                10 | 12 | 14 => t.push_str(&format!("<edge source=\"{}\" target=\"{}\"><node id=\"{}\"/><data key=\"{}\">{}</data></edge>", esc(u), esc(v), esc(u), wkey, w)),
+                11 | 13 | 15 => t.push_str(&format!("<edge source=\"{}\" target=\"{}\"><key id=\"zz\" for=\"node\" attr.name=\"colour\"/><desc/><data key=\"{}\">{}</data></edge>", esc(u), esc(v), wkey, w)),
                 0 => t.push_str(&format!("<edge source=\"{}\" target=\"{}\"/>", esc(u), esc(v))),
                 4 => t.push_str(&format!("<edge source=\"{}\" target=\"{}\"><data key=\"other\">{}</data></edge>", esc(u), esc(v), other)),
                 1 | 2 => t.push_str(&format!("<edge source=\"{}\" target=\"{}\"><data key=\"{}\">{}</data></edge>", esc(u), esc(v), wkey, w)),
@@ -609,10 +631,10 @@ fn judge_document(text: &str, origin: &str) {
     for specs in c19_specs() {
         ctx::eval(1);
         graphrs::verif_hooks::take_ticks("graphml_event");
-        graphrs::verif_hooks::set_budget("graphml_event", Some(budget));
+        crate::ctx::set_budget("graphml_event", Some(budget));
         let res = guard("read_graphml_string", || graphml::read_graphml_string(text, specs.to_real()));
         let ticks = graphrs::verif_hooks::take_ticks("graphml_event");
-        graphrs::verif_hooks::set_budget("graphml_event", None);
+        crate::ctx::set_budget("graphml_event", None);
         ctx::maxf("max_event_loop_iterations_over_input_length", ticks as f64 / (text.len().max(1)) as f64);
         let fail = |class: &str, detail: Value| {
             ctx::violation(&format!("C19|read_graphml_string|{}|{}", class, origin), &format!("read_graphml_string: {}", class), json!({"detail": detail, "document": text, "specs": specs.label(), "origin": origin}));
